@@ -1,6 +1,7 @@
 //! wf-fields — engines for field arithmetic, constants and encodings (C10, C11).
 #![allow(clippy::all)]
 mod big;
+mod dec;
 mod hint;
 mod rec;
 mod watch;
@@ -21,6 +22,7 @@ fn main() {
         },
         Some("record") => watch::record_main(&args[2..]),
         Some("record-child") => rec::child_main(&args[2..]),
+        Some("decoders") => dec::main(&args[2..]),
         Some("consts") => watch::consts_main(&args[2..]),
         Some("consts-child") => rec::consts_child_main(&args[2..]),
         _ => {
